@@ -1035,6 +1035,10 @@ func c19Lifecycle(t *testing.T, tr *Trace, rng *Rng, seqNo int) {
 			s.pool = 77
 		case 7:
 			s.deposit = sdk.NewInt(-5)
+		case 8:
+			s.master, s.children = true, []uint64{s.pool} // a child pool equal to the master pool
+		case 9:
+			s.master, s.children = true, []uint64{2, 99} // a child pool that does not exist
 		}
 		if fundIt && s.deposit.IsPositive() {
 			w.fund(w.acct(s.creator), sdk.NewCoins(sdk.NewCoin(s.denom, s.deposit)))
